@@ -46,6 +46,9 @@ func c10Item(e c10Entry, variant int) ap.Item {
 		return &ap.Actor{ID: ap.IRI(id), Type: ap.PersonType, PreferredUsername: ap.DefaultNaturalLanguageValue("u")}
 	case "object":
 		return &ap.Object{ID: ap.IRI(id), Type: ap.GroupType}
+	case "collection":
+		// the addressee given as an embedded collection object with the addressee's id (a followers collection that was dereferenced)
+		return &ap.OrderedCollection{ID: ap.IRI(id), Type: ap.OrderedCollectionType, TotalItems: 2, OrderedItems: ap.ItemCollection{ap.IRI("https://example.com/members/1")}}
 	case "opaque":
 		// an addressee named by a URI without an authority (acct:, urn:): a different string is a different addressee
 		return ap.IRI(fmt.Sprintf("acct:user%d@example.com", e.Who))
@@ -264,9 +267,10 @@ func TestC10(t *testing.T) {
 	alpha := []c10Entry{{0, "iri"}, {1, "iri"}, {0, "actor"}, {-1, "nil"}}
 	var lists [][]c10Entry
 	var build func(cur []c10Entry)
+	maxLen := 3
 	build = func(cur []c10Entry) {
 		lists = append(lists, append([]c10Entry{}, cur...))
-		if len(cur) == 3 {
+		if len(cur) == maxLen {
 			return
 		}
 		for _, e := range alpha {
@@ -275,8 +279,9 @@ func TestC10(t *testing.T) {
 	}
 	build(nil)
 	// second alphabet: alice, and two other addressees whose ids differ from hers only in the query
-	alpha = []c10Entry{{0, "iri"}, {0, "near"}, {0, "near-object"}, {0, "opaque"}, {1, "opaque"}}
+	alpha = []c10Entry{{0, "iri"}, {0, "near"}, {0, "near-object"}, {0, "opaque"}, {1, "opaque"}, {1, "collection"}}
 	first := len(lists)
+	maxLen = r.Pick(2, 3)
 	build(nil)
 	nearLists := lists[first:]
 	lists = lists[:first]
@@ -346,7 +351,7 @@ func TestC10(t *testing.T) {
 		r.Exhaustive("pairs", !r.Replaying())
 	}
 
-	forms := []string{"iri", "iri", "actor", "object", "variant", "near", "near-object", "opaque"}
+	forms := []string{"iri", "iri", "actor", "object", "variant", "near", "near-object", "opaque", "collection"}
 	r.Rapid(t, "random", r.Pick(4000, 30000), func(t *rapid.T) {
 		gt := rapid.SampledFrom(c10Types).Draw(t, "gotype")
 		c := c10Case{GoType: gt, VType: string(rapid.SampledFrom(vocab.NamesFor(gt)).Draw(t, "vtype")), Lists: map[string][]c10Entry{}}
